@@ -1332,3 +1332,94 @@ pub fn tls_pair_strategy() -> impl proptest::strategy::Strategy<Value = TlsPairC
     )
         .prop_map(|(buf, ops, caps, abort)| TlsPairCase { buf, ops, caps, abort })
 }
+
+// ------------------------------------------------------------------------------------------------
+// An aborted TCP connection is not an orderly end of the stream: one end writes some bytes, the
+// other reads them all, then the first end is dropped with SO_LINGER 0 (the kernel sends RST, as a
+// crashed peer or a middlebox does). The reader's next read has to fail - `Ok(0)` would invent an end
+// of stream and let a truncated message pass for a complete one.
+
+#[derive(Clone, Debug, Serialize, Deserialize, PartialEq)]
+pub struct ResetCase {
+    pub pre: u16,
+    /// the reading end is the client-side wrapper (else the server-side one)
+    pub reader_is_client: bool,
+    pub cap: u16,
+}
+
+pub struct TcpResetEngine;
+
+impl Engine for TcpResetEngine {
+    type Case = ResetCase;
+    fn name(&self) -> &'static str {
+        "tcpreset"
+    }
+    fn real_time(&self) -> bool {
+        true
+    }
+    fn run_case(&self, c: &ResetCase) -> CaseReport {
+        use hyperdriver::stream::Braid;
+        use tokio::io::{AsyncReadExt, AsyncWriteExt};
+        let mut rep = CaseReport::default();
+        let rt = tokio::runtime::Builder::new_current_thread().enable_all().build().unwrap();
+        let res: Result<(), String> = rt.block_on(async {
+            let l = tokio::net::TcpListener::bind("127.0.0.1:0").await.map_err(|e| e.to_string())?;
+            let addr = l.local_addr().map_err(|e| e.to_string())?;
+            let (cl, sv) = tokio::try_join!(tokio::net::TcpStream::connect(addr), async { l.accept().await.map(|(s, _)| s) }).map_err(|e| e.to_string())?;
+            let peer = cl.local_addr().map_err(|e| e.to_string())?;
+            // the writer is the end that will be aborted
+            let (mut writer, mut reader): (DynIo, DynIo) = if c.reader_is_client {
+                sv.set_linger(Some(std::time::Duration::ZERO)).map_err(|e| e.to_string())?;
+                let w: hyperdriver::server::conn::Stream = Braid::from(hyperdriver::stream::TcpStream::server(sv, peer)).into();
+                let r: hyperdriver::client::conn::Stream = hyperdriver::stream::TcpStream::client(cl).into();
+                (Box::pin(w), Box::pin(r))
+            } else {
+                cl.set_linger(Some(std::time::Duration::ZERO)).map_err(|e| e.to_string())?;
+                let w: hyperdriver::client::conn::Stream = hyperdriver::stream::TcpStream::client(cl).into();
+                let r: hyperdriver::server::conn::Stream = Braid::from(hyperdriver::stream::TcpStream::server(sv, peer)).into();
+                (Box::pin(w), Box::pin(r))
+            };
+            let data: Vec<u8> = (0..c.pre as usize).map(wbyte).collect();
+            if !data.is_empty() {
+                writer.write_all(&data).await.map_err(|e| format!("write: {e}"))?;
+                let mut got = vec![0u8; data.len()];
+                match tokio::time::timeout(std::time::Duration::from_secs(3), reader.read_exact(&mut got)).await {
+                    Ok(Ok(_)) if got == data => {}
+                    Ok(Ok(_)) => {
+                        rep.violate("C18/tcp-braid-stream/read-bytes-differ", "bytes before the abort differ".to_string());
+                        return Ok(());
+                    }
+                    Ok(Err(e)) => {
+                        rep.violate("C18/tcp-braid-stream/read-failed-on-healthy-pair", format!("reading the {} bytes written before the abort failed: {e}", data.len()));
+                        return Ok(());
+                    }
+                    Err(_) => {
+                        rep.class("socket-read-guard-expired-inconclusive");
+                        return Ok(());
+                    }
+                }
+            }
+            drop(writer); // SO_LINGER 0: the kernel resets the connection
+            let mut buf = vec![0u8; (c.cap as usize).max(1)];
+            match tokio::time::timeout(std::time::Duration::from_secs(3), reader.read(&mut buf)).await {
+                Ok(Err(_)) => {}
+                Ok(Ok(0)) => rep.violate("C18/tcp-braid-stream/reset-reported-as-end-of-stream", format!("{c:?}: the peer aborted the connection (RST) after {} bytes; the next read returned Ok(0) - an orderly end of stream that never happened", data.len())),
+                Ok(Ok(n)) => rep.violate("C18/tcp-braid-stream/bytes-invented", format!("{c:?}: {n} bytes arrived after everything written had been read and the peer aborted")),
+                Err(_) => rep.class("socket-read-guard-expired-inconclusive"),
+            }
+            rep.class("tcp-connection-aborted-by-peer");
+            Ok(())
+        });
+        if let Err(e) = res {
+            rep.internal_error = Some(format!("tcpreset: {e}"));
+        }
+        rep.nontrivial = c.pre > 0;
+        rep.total_ops = 2;
+        rep
+    }
+}
+
+pub fn reset_strategy() -> impl proptest::strategy::Strategy<Value = ResetCase> {
+    use proptest::prelude::*;
+    (prop_oneof![1 => Just(0u16), 3 => 1u16..64, 2 => 64u16..5000], any::<bool>(), prop_oneof![Just(1u16), 2u16..64, 64u16..4096]).prop_map(|(pre, reader_is_client, cap)| ResetCase { pre, reader_is_client, cap })
+}
